@@ -80,6 +80,23 @@ type inst struct {
 	initial   []metav1.Object
 }
 
+// longEvents: 120 events (more than the library's buffer) alternating between two objects.
+func longEvents() []kcache.Event {
+	var out []kcache.Event
+	for i := 0; i < 120; i++ {
+		rv := fmt.Sprint(i + 2)
+		switch {
+		case i%2 == 0:
+			out = append(out, kcache.NewEvent(kcache.EventTypeUpdate, hx.Pod("ns", "a", rv, "l=1")))
+		case i == 1:
+			out = append(out, kcache.NewEvent(kcache.EventTypeCreate, hx.Pod("ns", "b", rv, "l=1")))
+		default:
+			out = append(out, kcache.NewEvent(kcache.EventTypeUpdate, hx.Pod("ns", "b", rv, "l=1")))
+		}
+	}
+	return out
+}
+
 func events(upd2 bool) []kcache.Event {
 	if upd2 {
 		return []kcache.Event{
@@ -231,13 +248,21 @@ func (in *inst) run() {
 		}
 	}
 	in.root.Init(in.initial)
-	evs := events(c.Upd2)[:c.K]
+	var evs []kcache.Event
+	if c.K > 3 {
+		evs = longEvents()[:c.K]
+	} else {
+		evs = events(c.Upd2)[:c.K]
+	}
 	for i := 0; i <= len(evs); i++ {
 		if c.CloseAt == i {
 			go closer() // concurrently with the rest of the stream
 		}
 		if i < len(evs) {
 			in.root.Publish(evs[i])
+			if c.K > 3 {
+				vs.SleepIdle(1) // a handler that keeps up: one event at a time
+			}
 		}
 	}
 	in.finished = true
@@ -406,6 +431,8 @@ func Property() runner.Property {
 				out = append(out, scenario(cfg{Typed: typed, Upd2: true, K: 3, CloseAt: -1, Closer: "none", Mode: "S2", Bound: 2}))
 				out = append(out, scenario(cfg{Typed: typed, Upd2: true, SlowInit: true, K: 3, CloseAt: -1, Closer: "none", Mode: "S2", Bound: 1}))
 				out = append(out, scenario(cfg{Typed: typed, SlowInit: true, K: 3, CloseAt: -1, Closer: "none", Mode: "S2", Bound: 1}))
+				// a long stream on the default schedule: nothing depends on how many callbacks there have been
+				out = append(out, scenario(cfg{Typed: typed, K: 120, CloseAt: -1, Closer: "none", Mode: "D0"}))
 				out = append(out, scenario(cfg{Typed: typed, Partial: true, K: 3, CloseAt: -1, Closer: "none", Mode: "S2", Bound: 1}))
 				out = append(out, scenario(cfg{Typed: typed, Statement: true, K: 2, CloseAt: -1, Closer: "none", Mode: "S2", Bound: 1}))
 				if !typed {
